@@ -231,7 +231,7 @@ func C11(tier string) int {
 		strLen, mutParams = 6, 2
 	}
 	run.Rule = fmt.Sprintf("(a) grammar-derived lines: %d path forms (null, plain, source-routed, quoted local part, quoted pairs, address literal, atext specials, UTF-8) x every subset of <=3 parameters with distinct keywords out of %d MAIL / %d RCPT parameter variants; (b) EVERY single-point mutation (delete, duplicate, replace by each of %q) of the lines with <=%d parameters; (c) ALL strings of <=%d characters over %q as the text after 'MAIL FROM:' and after 'RCPT TO:'; plus single-parameter lines with hexchars / code points that are well-formed but not permitted in the value (8-bit and control octets, beyond Unicode, surrogates, NUL); all x extension flags {all on, all off}; (d) every unmutated line of (a) once more as the line FOLLOWING a predecessor of the same command that sets every parameter and was {refused by the backend with 451, accepted (MAIL repeated inside the open transaction / a further RCPT), refused with 5xx for an unknown last parameter} - the judged line must reach the backend with its own values only; (e) every unmutated line of (a) over implicit TLS (real handshake): same verdict as in plaintext; (f) lines whose keyword in front of the path is missing, misspelled or the other command's ('MAIL FORM:', 'MAIL TO:', 'RCPT FROM:', 'RCPT TOO:' ...): refused, no callback. Distinct by construction (enumeration; mutations may coincide, counted once per generating position); non-trivial = classified valid or definitely invalid by the independent reference grammar (ref/pathgrammar.go) - the 'unspecified' class is only checked for 'reply 250 <=> exactly one callback'. Oracle: valid => 250 and the backend receives exactly the mailbox and the decoded option values, every other field zero; invalid => 5xx and no callback.", len(c11Paths), len(c11MailParams), len(c11RcptParams), c11Mutators, mutParams, strLen, c11Alphabet)
-	run.Assumptions = []string{"deliberately unspecified (not judged): missing angle brackets, space after the colon, irregular spacing, duplicate keywords, value on a flag parameter, domain syntax beyond non-empty, dot-strings with empty atoms, lower-case hex in xtext, unknown ORCPT address types, SIZE >= 2^32, non-ASCII addresses without SMTPUTF8", "a quoted local part may reach the backend quoted or de-quoted"}
+	run.Assumptions = []string{"deliberately unspecified (not judged): missing angle brackets, space after the colon, irregular spacing, duplicate keywords, value on a flag parameter, domain syntax beyond non-empty, dot-strings with empty atoms, unknown ORCPT address types, SIZE >= 2^32, non-ASCII addresses without SMTPUTF8", "a quoted local part may reach the backend quoted or de-quoted"}
 	var cases []C11Case
 	seen := map[string]bool{}
 	add := func(cmd, arg string) {
@@ -293,10 +293,11 @@ func C11(tier string) int {
 		for _, x := range []string{"ORCPT=rfc822;~x!@d.example", "ORCPT=rfc822;x+7Ey+21@d.example", "ORCPT=utf-8;~x!@c.example"} {
 			add("RCPT", pth+" "+x)
 		}
-		for _, x := range []string{"ENVID=", "AUTH=", "RET=", "BODY=", "SIZE=", "SIZE=-1", "SIZE=1x", "ENVID=x+FFy", "ENVID=+80", "ENVID=x+07y", "ENVID=+00", "ENVID=x+7Fy", "AUTH=x+FFy@c.example", "AUTH=+80@c.example", "AUTH=x+00y@c.example", "AUTH=x+0Ay@c.example"} {
+		for _, x := range []string{"ENVID=x+3dy", "ENVID=x+3Dy", "ENVID=x+2by", "AUTH=x+3dy@c.example", "AUTH=x+3Dy@c.example", "BODY=8bitmime", "BODY=7bit", "body=BinaryMime", "BODY=8BitMime SIZE=5", "ENVID=", "AUTH=", "RET=", "BODY=", "SIZE=", "SIZE=-1", "SIZE=1x", "ENVID=x+FFy", "ENVID=+80", "ENVID=x+07y", "ENVID=+00", "ENVID=x+7Fy", "AUTH=x+FFy@c.example", "AUTH=+80@c.example", "AUTH=x+00y@c.example", "AUTH=x+0Ay@c.example"} {
 			add("MAIL", pth+" "+x)
 		}
-		for _, x := range []string{"ORCPT=rfc822;", "ORCPT=utf-8;", "ORCPT=;a@d.example", "ORCPT=rfc822", "NOTIFY=", "NOTIFY=,", "NOTIFY=SUCCESS,", "RRVS=", "ORCPT=rfc822;x+FFy@d.example", "ORCPT=rfc822;x+07y@d.example", "ORCPT=rfc822;+80@d.example", "ORCPT=rfc822;x+00@d.example",
+		for _, x := range []string{"NOTIFY=NEVER,SUCCESS", "NOTIFY=SUCCESS,NEVER", "NOTIFY=never,delay", "NOTIFY=NEVER,NEVER", "NOTIFY=SUCCESS,SUCCESS", "NOTIFY=NEVER,FAILURE,DELAY", "NOTIFY=FAILURE,NEVER,DELAY",
+			"ORCPT=rfc822;x+3dy@d.example", "ORCPT=rfc822;x+3Dy@d.example", "ORCPT=rfc822;", "ORCPT=utf-8;", "ORCPT=;a@d.example", "ORCPT=rfc822", "NOTIFY=", "NOTIFY=,", "NOTIFY=SUCCESS,", "RRVS=", "ORCPT=rfc822;x+FFy@d.example", "ORCPT=rfc822;x+07y@d.example", "ORCPT=rfc822;+80@d.example", "ORCPT=rfc822;x+00@d.example",
 			`ORCPT=utf-8;a\x{FFFFFFF}y@c.example`, `ORCPT=utf-8;a\x{110000}@c.example`, `ORCPT=utf-8;a\x{D800}@c.example`, `ORCPT=utf-8;a\x{DFFF}@c.example`, `ORCPT=utf-8;a\x{0}@c.example`, `ORCPT=utf-8;a\x{00}@c.example`,
 			`ORCPT=utf-8;a\x{FFFFFFFFFFFFFFFFF}@c.example`, `ORCPT=utf-8;a\x{10FFFF}@c.example`, `ORCPT=utf-8;a\x{E9}@c.example`, `ORCPT=utf-8;a\x{7F}@c.example`, `ORCPT=utf-8;a\x{}@c.example`, `ORCPT=utf-8;a\x{G1}@c.example`} {
 			add("RCPT", pth+" "+x)
